@@ -1,6 +1,7 @@
 """Correspondence family `docemit`: docstring_utils.emit_param_str, emit.docstring, emitter_utils.to_docstring
-vs coq/model/DocEmit.v.  Compared: the text byte for byte AND the post-call param / IR (emit_param_str and
-emit.docstring mutate their arguments; to_docstring works on copies and must leave the IR as it was).  The wrapping width is read by doctrans at import, so cases with an explicit `width` run in a child
+vs coq/model/DocEmit.v.  Compared: the text byte for byte AND the post-call param / IR (all three functions
+now work on copies of the param dicts, so the post-call value must be the input; the model says so and the
+comparison would show any write into the caller's object).  The wrapping width is read by doctrans at import, so cases with an explicit `width` run in a child
 process started with DOCTRANS_LINE_LENGTH=<width>; cases with width None run in-process at the module default."""
 import copy
 import json
